@@ -394,6 +394,7 @@ func (hs *clientHandshakeStateTLS13) processHelloRetryRequest() error {
 				return errors.New("uTLS does not support reprocessing of PSK key triggered by HelloRetryRequest")
 			}
 
+			hs.uconn.extraEcdheKeys = nil // the second ClientHello carries exactly one fresh share
 			keyShareExtFound := false
 			for _, ext := range hs.uconn.Extensions {
 				// new ks seems to be generated either way
@@ -597,6 +598,12 @@ func (hs *clientHandshakeStateTLS13) establishHandshakeKeys() error {
 			return errors.New("tls: invalid server X25519Kyber768Draft00 key share")
 		}
 		ecdhePeerData = hs.serverHello.serverShare.data[:x25519PublicKeySize]
+	}
+	if hs.uconn != nil && hs.keyShareKeys != nil {
+		// the server may have selected a classical share other than the first one
+		if k, ok := hs.uconn.extraEcdheKeys[hs.serverHello.serverShare.group]; ok {
+			hs.keyShareKeys.ecdhe = k
+		}
 	}
 	sharedKey, err := getSharedKey(ecdhePeerData, hs.keyShareKeys.ecdhe)
 	// [uTLS] SECTION END
